@@ -12,7 +12,7 @@ import os
 
 import numpy as np
 
-from .. import core, geo, motlutil
+from .. import argguard, core, geo, motlutil
 
 ANG_TOL = 2e-4
 SNAP = 1e-9
@@ -64,7 +64,35 @@ def build_motl(parts, rng, real=False):
         cols["class"][i] = 1
         cols["score"][i] = 0.1 * (i + 1)
     # row labels are not part of a particle list: default, permuted or gapped labels must give the same analysis
-    return cryomotl.Motl(motlutil.vary_index(motlutil.df_from_cols(cols), rng.randrange(1000)))
+    # ... nor is the order of the 20 named columns, nor whether whole-numbered positions are stored as integers
+    df = motlutil.df_from_cols(cols)
+    if rng.random() < 0.3:
+        df = motlutil.int_positions(df)
+    return cryomotl.Motl(motlutil.vary_columns(motlutil.vary_index(df, rng.randrange(1000)), rng.randrange(1000)))
+
+
+def disturb18(k, ma, mb):
+    """Call-history independence: other public nnana calls on the same lists (other options) before the judged call."""
+    if k is None:
+        return
+    from cryocat import nnana
+
+    def quiet(fn, *a, **kw):
+        try:
+            fn(*a, **kw)
+        except Exception:
+            pass
+    pick = k % 5
+    if pick == 0:
+        quiet(nnana.get_nn_within_distance, ma, 3.0, unique_only=False)
+    elif pick == 1:
+        quiet(nnana.get_feature_nn_indices, ma, mb, 2)
+    elif pick == 2:
+        quiet(nnana.get_nn_distances, mb, ma, pixel_size=2.5, nn_number=3, rotation_type="cone_distance")
+    elif pick == 3:
+        quiet(nnana.get_nn_rotations, mb, ma, nn_number=2)
+    else:
+        quiet(nnana.get_nn_stats, mb, ma, pixel_size=0.5, nn_number=4, rotation_type="in_plane_distance")
 
 
 def rows_by_query(table):
@@ -89,19 +117,52 @@ def run_state(ctx, case):
     pxf = px[0] / px[1]
     sig0 = {"op": "get_nn_stats", "scope": case.get("scope", "")}
 
-    def call():
-        ma = build_motl(A, rng)
-        same = (A == B)
-        mb = ma if (same and case["variant"] % 2 == 0) else build_motl(B, rng)
-        if k == 1 and pxf == 1.0 and case["variant"] % 3 == 0:
-            return nnana.get_nn_stats(ma, mb)        # defaults
-        return nnana.get_nn_stats(ma, mb, pixel_size=pxf, nn_number=k)
+    ma = build_motl(A, rng)
+    same = (A == B)
+    mb = ma if (same and case["variant"] % 2 == 0) else build_motl(B, rng)
+    guard = argguard.Guard(motl_a=ma.df, motl_nn=mb.df)
+    arg_a, arg_b = ma, mb
+    if case["variant"] % 6 == 5:
+        # the lists handed over as file names (documented: Motl or str); EM files hold float32 - lattice positions,
+        # quarter-turn angles and the identifiers are exact in it
+        pa_, pb_ = os.path.join(ctx.workdir, "nn_a_%d.em" % case["variant"]), os.path.join(ctx.workdir, "nn_b_%d.em" % case["variant"])
+        ma.write_out(pa_)
+        mb.write_out(pb_)
+        arg_a, arg_b = (pa_, pb_) if case["variant"] % 12 == 5 else (pa_, mb)
+    spell = case["variant"] % 4
 
+    def call():
+        if k == 1 and pxf == 1.0 and spell == 0:
+            return nnana.get_nn_stats(arg_a, arg_b)        # defaults
+        if spell == 1:
+            return nnana.get_nn_stats(arg_a, arg_b, pixel_size=(int(pxf) if pxf == int(pxf) else pxf), nn_number=np.int64(k),
+                                      feature_id="tomo_id", rotation_type="angular_distance")
+        if spell == 2:
+            return nnana.get_nn_stats(arg_a, arg_b, pxf, "tomo_id", k)
+        return nnana.get_nn_stats(arg_a, arg_b, pixel_size=pxf, nn_number=k)
+
+    disturb18(case.get("disturb"), ma, mb)
     table, err = core.call_guarded(call)
     ctx.ran(case)
     if err is not None:
         ctx.fail("call_raises", err, case, dict(sig0, field="call"))
         return
+    if guard.changed():
+        ctx.fail("C18_InputsUntouched", guard.changed(), case, dict(sig0, field="arguments"))
+    if case["variant"] % 5 == 0:
+        # the same list objects once more: the same table; the first table is still what it was
+        first = table.copy(deep=True)
+        again, err2 = core.call_guarded(call)
+        if err2 is not None:
+            ctx.fail("call_raises", err2, case, dict(sig0, field="second call"))
+        elif list(again.columns) != list(first.columns) or again.shape != first.shape or \
+                not np.array_equal(again.drop(columns="type").to_numpy(dtype=float), first.drop(columns="type").to_numpy(dtype=float), equal_nan=True):
+            ctx.fail("C18_SameArgumentsSameTable", "a second call with the same list objects returned another table", case,
+                     dict(sig0, field="second call"))
+        if not table.equals(first):
+            ctx.fail("C18_ResultsPersist", "the table of the first call changed during the second call", case, dict(sig0, field="first table"))
+        if guard.changed():
+            ctx.fail("C18_InputsUntouched", guard.changed(), case, dict(sig0, field="arguments"))
     got = rows_by_query(table)
     sids_a = [p["sid"] for p in A]
     b_same = lambda nn, t: any(p["sid"] == nn and p["t"] == t for p in B)
@@ -319,11 +380,19 @@ def analyse(ctx, case):
     rng = random.Random(case["judge_seed"])
     ma = build_motl(A, rng, real=True)
     mb = ma if case["B"] is None and case["judge_seed"] % 2 == 0 else build_motl(B, rng, real=True)
-    t1 = rows_by_query(nnana.get_nn_stats(ma, mb, pixel_size=px, nn_number=k))
+    guard = argguard.Guard(motl_a=ma.df, motl_nn=mb.df)
+    raw1 = nnana.get_nn_stats(ma, mb, pixel_size=px, nn_number=k)
+    keep1 = raw1.copy(deep=True)
+    t1 = rows_by_query(raw1)
+    if guard.changed():
+        ctx.fail("C18_InputsUntouched", guard.changed(), case, {"op": "get_nn_stats", "scope": "real", "field": "arguments"})
     A2, B2 = moved(A, case["motions"]), moved(B, case["motions"])
     ma2 = build_motl(A2, rng, real=True)
     mb2 = build_motl(B2, rng, real=True)
     t2 = rows_by_query(nnana.get_nn_stats(ma2, mb2, pixel_size=px, nn_number=k))
+    if not raw1.equals(keep1):
+        ctx.fail("C18_ResultsPersist", "the table of the first analysis changed during the second one", case,
+                 {"op": "get_nn_stats", "scope": "real", "field": "first table"})
     # ---- projection (brute force, all pairs)
     ca, cb = complete(A), complete(B)
     tb = np.array([p["t"] for p in B])
@@ -500,18 +569,19 @@ def run(ctx):
     W = 4
     seed = ctx.seed
     states = []
-    res = ctx.tlc("MC_NearestNbr", cfg("OrientConfigs", "Gens", "NoShift", 0, "st", invs=INVS + ["C18_TableIsDerived"]),
-                  name="orient", workers=1)
-    states += emitted_states(res, "orient")
-    res = ctx.tlc("MC_NearestNbr", cfg("SelfConfigs", "Gens", "NoShift", 0, "st", invs=INVS + ["C18_TableIsDerived"]),
-                  name="self", workers=1)
-    states += emitted_states(res, "self")
+    res = ctx.tlc("MC_NearestNbr", cfg("StaticConfigs", "Gens", "NoShift", 0, "st", invs=INVS + ["C18_TableIsDerived"]),
+                  name="static", workers=1)
+    for st in emitted_states(res, "orient"):
+        # orientation scope / coincident lists / coincident positions in different lists, told apart by their structure
+        if st["A"] == st["B"]:
+            st["scope"] = "self"
+        elif any(a["p"] == b["p"] and a["t"] == b["t"] for a in st["A"] for b in st["B"]):
+            st["scope"] = "samepos"
+        states.append(st)
     res = ctx.tlc("MC_NearestNbr", cfg("SelectConfigs", "Gens", "NoShift", 0, "st"), name="select", workers=1)
     states += emitted_states(res, "select")
-    res = ctx.tlc("MC_NearestNbr", cfg("RestartConfigs", "Gens", "NoShift", 0, "st"), name="restart", workers=1)
+    res = ctx.tlc("MC_NearestNbr", cfg(ctx.pick("RestartConfigsQuick", "RestartConfigs"), "Gens", "NoShift", 0, "st"), name="restart", workers=1)
     states += emitted_states(res, "restart")
-    res = ctx.tlc("MC_NearestNbr", cfg("SamePosConfigs", "Gens", "NoShift", 0, "st"), name="samepos", workers=1)
-    states += emitted_states(res, "samepos")
     res = ctx.tlc("MC_NearestNbr", cfg(ctx.pick("MotionConfigsQuick", "MotionConfigsThorough"), "All", "MCShifts", 1, "st"), name="motion", workers=1)
     states += emitted_states(res, "motion")
     ctx.exhaustive["L1_scopes"] = True
@@ -519,8 +589,8 @@ def run(ctx):
     by_scope = {}
     for s in states:
         by_scope.setdefault(s["scope"], []).append(s)
-    budget = {"samepos": ctx.pick(150, 1300), "restart": ctx.pick(150, 3000), "orient": ctx.pick(120, 576), "self": ctx.pick(50, 2000), "select": ctx.pick(300, 9000),
-              "motion": ctx.pick(180, 5000)}
+    budget = {"samepos": ctx.pick(110, 1300), "restart": ctx.pick(110, 3000), "orient": ctx.pick(100, 576), "self": ctx.pick(40, 2000), "select": ctx.pick(240, 9000),
+              "motion": ctx.pick(140, 5000)}
     chosen = []
     for scope, lst in sorted(by_scope.items()):
         keyed = sorted(lst, key=lambda t: core.stable_hash([seed, t]))
@@ -532,7 +602,8 @@ def run(ctx):
     ctx.extra["states_replayed"] = len(chosen)
     for i, s in enumerate(chosen):
         run_state(ctx, {"kind": "l2_state", "scope": s["scope"], "A": s["A"], "B": s["B"], "k": s["k"], "px": s["px"],
-                        "op": s["op"], "table": s["table"], "variant": (seed * 7919 + i) % 100003})
+                        "op": s["op"], "table": s["table"], "variant": (seed * 7919 + i) % 100003,
+                        "disturb": (i * 13 + seed) if i % 5 == 0 else None})
     # ---- L3
     n = ctx.pick(100, 3000)
     cases = [gen_case(ctx.rng, i + 1, big=(i % (8 if ctx.quick else 4) == 0)) for i in range(n)]
